@@ -599,6 +599,13 @@ def posdirsource(run, fx):
                 continue
             n += 1
             a = fn.strip_all_casts(fn.N(args[3]))
+            for _hop in range(4):           # a never-reassigned local stands for its initialiser; `x != 0` is x as a truth value
+                if a['k'] == 'DeclRefExpr' and a.get('vid') in fn.const_init:
+                    a = fn.strip_all_casts(fn.N(fn.const_init[a['vid']]))
+                elif a['k'] == 'BinaryOperator' and a.get('op') == '!=' and any(fn.strip_all_casts(fn.N(c_)).get('v') == 0 for c_ in a['c']):
+                    a = [fn.strip_all_casts(fn.N(c_)) for c_ in a['c'] if fn.strip_all_casts(fn.N(c_)).get('v') != 0][0]
+                else:
+                    break
             if a['k'] in ('CXXMemberCallExpr', 'CallExpr') and (a.get('fq') or '') in OK:
                 continue
             if a['k'] == 'MemberExpr' and a.get('d') == 'graphite2::Segment::m_dir' and fn.q == 'graphite2::Segment::justify':
